@@ -169,10 +169,13 @@ TRI_ONLY = {"face_circumcenter", "cotangent", "cotan_weights", "angle_defects"}
 def _history(rng, tri, volume, n):
     qs = VOL_Q if volume else [q for q in SURF_Q if tri or q[0] not in TRI_ONLY]
     evs = []
+    doubles = 0
     for _ in range(n):
         r = rng.random()
         if r < 0.12:
-            evs.append({"op": "transform", "mi": rng.randint(1, 6), "s": rng.choice([1, 1, 2]), "t": [rng.randint(-2, 2) for _ in range(3)]})
+            sc = rng.choice([1, 1, 2]) if doubles < 2 else 1      # keep coordinates small: the specification searches integer square roots
+            doubles += (sc == 2)
+            evs.append({"op": "transform", "mi": rng.randint(1, 6), "s": sc, "t": [rng.randint(-2, 2) for _ in range(3)]})
         else:
             name, modes = rng.choice(qs)
             evs.append({"op": "quantity", "name": name, "mode": rng.choice(modes), "zb": rng.randint(0, 1),
@@ -200,8 +203,8 @@ def run(ctx):
         Pk, Ck = c03.kuhn(rng, *dims)
         shapes.append(("K", Pk, [], Ck))
     cases = []
-    reps = 8 if thorough else 3
-    nev = 40 if thorough else 25
+    reps = 10 if thorough else 6
+    nev = 50 if thorough else 35
     for name, P, F, C in shapes:
         for rep in range(reps):
             # images under a motion and a renumbering: the definitions do not care
